@@ -261,13 +261,14 @@ def render_qual(book, sheet, sp, host, relative):
     elif q == 'idx':
         k = str(1 + sp.get('sm', 0) % 9)
         ctx['sheet'] = other_sheet(sheet)
-        ctx['directory'], ctx['filename'] = '', 'zz-other.xlsx'
+        # the host workbook lies in the base directory or in a sub-directory: the link decides, not the host
+        ctx['directory'], ctx['filename'] = ('hostdir' if (sp.get('sm', 0) // 2) % 2 else ''), 'zz-other.xlsx'
         ctx['external_links'] = {k: (d, fn), str(int(k) + 1): ('elsewhere', 'zz-third.xlsx')}
         prefix = '[%s]%s!' % (k, S)
     elif q == 'idxq':  # the form xlsx files use when the sheet name needs quotes: '[1]My Sheet'!A1
         k = str(1 + sp.get('sm', 0) % 9)
         ctx['sheet'] = other_sheet(sheet)
-        ctx['directory'], ctx['filename'] = '', 'zz-other.xlsx'
+        ctx['directory'], ctx['filename'] = ('hostdir' if (sp.get('sm', 0) // 2) % 2 else ''), 'zz-other.xlsx'
         ctx['external_links'] = {k: (d, fn), str(int(k) + 1): ('elsewhere', 'zz-third.xlsx')}
         prefix = "'[%s]%s'!" % (k, S.replace("'", "''"))
     else:
